@@ -62,9 +62,10 @@ type txnHandle struct {
 }
 
 type trigLog struct {
-	name   string
-	events []string
-	seen   int
+	name    string
+	events  []string
+	seen    int
+	dropped bool
 }
 
 type coll struct {
@@ -521,7 +522,11 @@ func (c *coll) trigDelta() string {
 	var outs []string
 	for _, t := range c.trigs {
 		if len(t.events) > t.seen {
-			outs = append(outs, fmt.Sprintf("%s[%s]", t.name, strings.Join(t.events[t.seen:], ",")))
+			name := t.name
+			if t.dropped {
+				name += "!dropped" // a trigger that was dropped (or replaced) must never be called again
+			}
+			outs = append(outs, fmt.Sprintf("%s[%s]", name, strings.Join(t.events[t.seen:], ",")))
 			t.seen = len(t.events)
 		}
 	}
@@ -1360,13 +1365,12 @@ func (s *storeImpl) exec(toks []string) (out string) {
 		}); err != nil {
 			return "err"
 		}
-		var kept []*trigLog
 		for _, o := range c.trigs {
-			if o.name != rest[1] {
-				kept = append(kept, o)
+			if o.name == rest[1] {
+				o.dropped = true
 			}
 		}
-		c.trigs = append(kept, t)
+		c.trigs = append(c.trigs, t)
 		return "ok"
 	case "dropcol":
 		if len(rest) != 2 {
@@ -1390,13 +1394,11 @@ func (s *storeImpl) exec(toks []string) (out string) {
 		}
 		c.indexes = removeStr(c.indexes, rest[1])
 		c.sorted = removeStr(c.sorted, rest[1])
-		var kept []*trigLog
 		for _, o := range c.trigs {
-			if o.name != rest[1] {
-				kept = append(kept, o)
+			if o.name == rest[1] {
+				o.dropped = true
 			}
 		}
-		c.trigs = kept
 		return "ok"
 	case "begin":
 		if len(rest) != 2 {
@@ -1455,6 +1457,18 @@ func (s *storeImpl) exec(toks []string) (out string) {
 			chunks = append(chunks, strconv.Itoa(int(e.chunk)))
 		}
 		return fmt.Sprintf("committed emitted=%d chunks=%s", len(c.emitted)-before, strings.Join(chunks, ",")) + c.trigDelta()
+	case "sparse":
+		var offs []uint32
+		for _, x := range rest[1:] {
+			v, err := strconv.ParseUint(x, 10, 32)
+			if err != nil {
+				return "bad-op"
+			}
+			offs = append(offs, uint32(v))
+		}
+		insertMarkers(c.c, offs...)
+		c.drain()
+		return "ok" + c.trigDelta()
 	case "dump":
 		return c.dump()
 	case "count":
